@@ -121,6 +121,8 @@ type lexer struct {
 	braces int   // Number of open hashes, a subset of parens
 
 	verbatim bool // The tag being lexed is {% verbatim %}
+
+	done chan struct{} // Closed by the parser when it stops reading tokens.
 }
 
 // nextToken returns the next token emitted by the lexer.
@@ -146,7 +148,7 @@ func (l *lexer) tokenize() {
 func newLexer(input io.Reader) *lexer {
 	// TODO: lexer should use the reader.
 	i, _ := ioutil.ReadAll(input)
-	return &lexer{0, 0, 1, 0, string(i), make(chan token), nil, modeNormal, token{}, 0, 0, false}
+	return &lexer{0, 0, 1, 0, string(i), make(chan token), nil, modeNormal, token{}, 0, 0, false, make(chan struct{})}
 }
 
 func (l *lexer) next() (val string) {
@@ -192,7 +194,7 @@ func (l *lexer) emit(t tokenType) {
 		l.offset += len(val)
 	}
 
-	l.tokens <- tok
+	l.send(tok)
 	verifEvent("lex.sent", l, tok.tokenType.String())
 	l.start = l.pos
 	if tok.tokenType == tokenEOF {
@@ -201,9 +203,20 @@ func (l *lexer) emit(t tokenType) {
 	}
 }
 
+// send hands a token to the parser. Once the parser has stopped reading
+// (it returned, usually with a syntax error) tokens are dropped, so that the
+// tokenizing goroutine runs to the end of the input and exits instead of
+// blocking on the channel forever.
+func (l *lexer) send(tok token) {
+	select {
+	case l.tokens <- tok:
+	case <-l.done:
+	}
+}
+
 func (l *lexer) errorf(format string, args ...interface{}) stateFn {
 	tok := token{fmt.Sprintf(format, args...), tokenError, Pos{l.line, l.offset}}
-	l.tokens <- tok
+	l.send(tok)
 	verifEvent("lex.sent", l, tok.tokenType.String())
 	// Nothing follows an error: close the channel so that the parser keeps
 	// receiving the error token instead of blocking on the next read.
